@@ -71,6 +71,7 @@ Definition flat_obs (o : obs) : list tok :=
   | ODone out => TS "done" :: flat_optz out
   | OCut w => [TS "cut"; TN w]
   | OErr e => [TS "err"; TN (err_code e)]
+  | OCan b => [TS "can"; TN (if b then 1 else 0)]
   end.
 
 Fixpoint ins_hist (e : nat * list nat) (l : list (nat * list nat)) :=
@@ -87,32 +88,36 @@ Definition flat_st (s : st) : list tok :=
   ++ TS "output" :: flat_optz (s_output s)
   ++ TS "log" :: List.concat (map flat_obs (rev (s_log s))).
 
+(* `probe`: the harness calls can(ev) before each send and records the answer *)
+Definition probe_can (probe : bool) (m : machine) (ev : event) (s : st) : st :=
+  if probe then logo (OCan (can m (s_cfg s) (s_ctx s) ev)) s else s.
+
 (* K-macro-s: snapshots after start() and after each send() *)
-Fixpoint sync_snaps (m : machine) (s : st) (evs : list event) : list (list tok) :=
+Fixpoint sync_snaps (probe : bool) (m : machine) (s : st) (evs : list event) : list (list tok) :=
   match evs with
   | [] => []
-  | ev :: r => let s' := catch (sync_send m ev) s in flat_st s' :: sync_snaps m s' r
+  | ev :: r => let s' := catch (sync_send m ev) (probe_can probe m ev s) in flat_st s' :: sync_snaps probe m s' r
   end.
-Definition sync_case (m : machine) (cx : ctx) (evs : list event) : list (list tok) :=
-  let s0 := catch (sync_start m) (st_init cx) in flat_st s0 :: sync_snaps m s0 evs.
+Definition sync_case (probe : bool) (m : machine) (cx : ctx) (evs : list event) : list (list tok) :=
+  let s0 := catch (sync_start m) (st_init cx) in flat_st s0 :: sync_snaps probe m s0 evs.
 
 (* K-macro-a: snapshots at quiescence after start() and after each send() *)
 Definition async_fuel : nat := 400.
-Fixpoint async_snaps (m : machine) (s : st) (evs : list event) : list (list tok) :=
+Fixpoint async_snaps (probe : bool) (m : machine) (s : st) (evs : list event) : list (list tok) :=
   match evs with
   | [] => []
-  | ev :: r => match async_loop async_fuel m (async_send ev s) with
-               | (s', false) => flat_st s' :: async_snaps m s' r
+  | ev :: r => match async_loop async_fuel m (async_send ev (probe_can probe m ev s)) with
+               | (s', false) => flat_st s' :: async_snaps probe m s' r
                | (_, true) => [[TS "TIMEOUT"]]
                end
   end.
-Definition async_case (m : machine) (cx : ctx) (evs : list event) : list (list tok) :=
+Definition async_case (probe : bool) (m : machine) (cx : ctx) (evs : list event) : list (list tok) :=
   match async_loop async_fuel m (catch (async_start m) (st_init cx)) with
-  | (s0, false) => flat_st s0 :: async_snaps m s0 evs
+  | (s0, false) => flat_st s0 :: async_snaps probe m s0 evs
   | (_, true) => [[TS "TIMEOUT"]]
   end.
 
 Definition snaps_eqb := list_eqb toks_eqb.
 (* a macro case: machine, engine, runs = (initial ctx, events, implementation snapshots) *)
-Definition check_macro (eng : engine) (m : machine) (runs : list (ctx * list event * list (list tok))) : list nat :=
-  bad_idx (fun r => snaps_eqb (match eng with Sync => sync_case | Async => async_case end m (fst (fst r)) (snd (fst r))) (snd r)) runs.
+Definition check_macro (eng : engine) (probe : bool) (m : machine) (runs : list (ctx * list event * list (list tok))) : list nat :=
+  bad_idx (fun r => snaps_eqb (match eng with Sync => sync_case | Async => async_case end probe m (fst (fst r)) (snd (fst r))) (snd r)) runs.
